@@ -346,15 +346,24 @@ func checkFaithful(dec *TOMLDeviceConfig, cfg *Config, err error) {
 		verifrt.Assert(km.Name == m.Name, "C10: mapping names as in the file")
 		for _, am := range m.AnalogMapping {
 			verifrt.Assert(km.DefaultDeadzone[am.SubHandler] == am.DefaultDeadzone, "C10: per-handler default deadzone as in the file")
-			if len(am.Map) != 1 {
-				continue
-			}
 			for name, e := range am.Map {
 				code, e2 := TomlKeyToEvCode(name, evdev.ABSFromString)
 				verifrt.Assert(e2 == nil, "C10: accepted files have only known axis names")
 				a, ok := km.Analog[am.SubHandler][code]
 				verifrt.Assert(ok, "C10: every axis of the file is in the configuration")
 				if !ok {
+					continue
+				}
+				// the same axis written twice (by name and by hex code): either entry may have won; only axes
+				// written once are compared field by field
+				twice := false
+				for n2 := range am.Map {
+					c2, e3 := TomlKeyToEvCode(n2, evdev.ABSFromString)
+					if n2 != name && e3 == nil && c2 == code {
+						twice = true
+					}
+				}
+				if twice {
 					continue
 				}
 				verifrt.Assert(string(a.MappingType) == e.Type && a.FlipAxis == e.FlipAxis && a.DeadzoneAtCenter == e.DeadzoneAtCenter, "C10: axis type, flip and deadzone-at-centre as in the file")
